@@ -66,7 +66,8 @@ def call_source(case: dict[str, Any]) -> str:
         call_args = kws + pos
     else:
         call_args = pos + kws
-    call = "{% call 'm'" + ((", " if case.get("lead_comma") else " ") + ", ".join(call_args) if call_args else "") + " %}"
+    joiner = ", " if case.get("call_comma", True) else " "
+    call = "{% call 'm'" + ((", " if case.get("lead_comma") else " ") + joiner.join(call_args) if call_args else "") + " %}"
     if case.get("in_loop"):
         call = "{% for t in (1..2) %}" + call + "{% endfor %}"
     return call
@@ -230,6 +231,12 @@ def judge(ctx: core.Ctx, case: dict[str, Any]) -> None:
             ctx.count("with_blocks_left_early")
     e = lax_env() if case["kind"] != "macro" and "'err'" in repr(case["ops"]) else env()
     o = drv.parse_and_render(e, src, data, use_async=case.get("async", False))
+    if not o.ok and case.get("call_comma") is False and o.err_class == "LiquidSyntaxError":
+        # a call whose arguments are not separated by commas: rejecting it is one consistent answer (binding all of them is the other);
+        # binding some and dropping the rest without a word is neither
+        ctx.count("comma_less_call_rejected")
+        ctx.ok((src,), nontrivial=True)
+        return
     if not o.ok:
         ctx.evaluations += 1
         ctx.violation(f"raises-{o.err_class}:{sig}", f"{src!r:.300} raised {o.err_class}: {drv.safe_str(o.exc)[:100]}")
@@ -244,6 +251,8 @@ def judge(ctx: core.Ctx, case: dict[str, Any]) -> None:
 def classify_macro(case: dict[str, Any]) -> str:
     if case.get("calls"):
         return "several-calls-of-one-definition"
+    if case.get("call_comma") is False:
+        return "arguments-without-commas"
     n = len(case["params"])
     parts = []
     if case["npos"] > n:
@@ -306,6 +315,16 @@ def cases(ctx: core.Ctx):
                     yield {"kind": "macro", "params": list(params), "npos": npos, "kws": list(kws), "kw_first": (idx % 5 == 0), "lead_comma": (idx % 7 == 0), "async": (idx % 11 == 0)}
                     if all(d == "none" for d in params) and (npos or kws) and npos <= len(params) and idx % 3 == 0:  # (how join prints surplus nil arguments is not this property's subject)
                         yield {"kind": "macro", "params": list(params), "npos": npos, "kws": list(kws), "kw_first": False, "lead_comma": False, "async": (idx % 2 == 0), "nil_args": True}
+    # the same calls written without commas between the arguments (the macro tag accepts its parameters that way)
+    for n in range(1, 4):
+        for params in itertools.product(["none", "lit"], repeat=n):
+            for npos in range(0, 4):
+                for kws in ((), ("p0",), ("p1", "z0"), ("z0",)):
+                    if npos + len(kws) < 2:
+                        continue
+                    idx += 1
+                    if idx % ctx.nshards == ctx.shard:
+                        yield {"kind": "macro", "params": list(params), "npos": npos, "kws": list(kws), "call_comma": False, "async": idx % 5 == 0}
     # histories: two or three calls of one definition in one render, every ordered pair of call shapes (one of them possibly in a loop)
     shapes = [{"npos": npos, "kws": list(kws)} for npos in range(4) for kws in ((), ("p0",), ("p1",), ("p2",), ("p1", "p0"), ("z0",))]
     for n in range(1, 4):
